@@ -565,7 +565,7 @@ func runC06(c *eng.Ctx) {
 		if k%5 == 3 {
 			s, _ = genCyclic(rng, true)
 		} else {
-			s, _ = GenSpec(rng, GenOpts{Want: ClsOK, Specials: k%3 == 0, Lifetimes: lifes, MultiAlias: full, OutGroup: full})
+			s, _ = GenSpec(rng, GenOpts{Want: ClsOK, Specials: k%3 == 0, Lifetimes: lifes, MultiAlias: full, OutGroup: full, Removes: k%4 == 2})
 		}
 		if s == nil {
 			continue
